@@ -4,6 +4,7 @@
   *every* value of `w.fault` (no fault, a fault at any position), i.e. at every crash point.
 -/
 import AnyVecModel.Proofs.Exec
+import AnyVecModel.Proofs.KernelCtor
 import AnyVecModel.Props.Hist
 namespace AnyVec
 namespace C06
@@ -302,6 +303,37 @@ theorem history_lying_splice_core (cfg : Cfg) (w : World) (hr : Hist.Reach cfg w
     (runStep cfg (.splice v lo hi typed repl claim eats fin) f w).1.Inv ∧
       (runStep cfg (.splice v lo hi typed repl claim eats fin) f w).2.notUb :=
   Hist.runStep_inv cfg (.splice v lo hi typed repl claim eats fin) f w (Hist.reach_inv_core cfg w hr) hrepl ⟨hv, hc⟩
+
+/-! ### tie to the source text -/
+
+/-- **source tie**: the model lowers a vector's length at the creation of a removal handle / range iterator
+exactly as `Pop::new`, `Remove::new`, `SwapRemove::new`, `Drain::new`, `Splice::new` of `/repo/src/ops/*.rs` do
+(re-translated on this run into `Gen/Kernel.lean`): the steps of the model continue from the length and the
+fields those constructors produce. -/
+theorem len_is_lowered_first_is_the_source (cfg : Cfg) (w : World) (v i : Nat) (k : Sink) (d : VecSt)
+    (hv : w.vecs[v]? = some d) (hl : d.live = true) (hi : i < d.len) :
+    (∃ len', Gen.Kernel.pop_new d.len = .ok (.made len' []) ∧
+      step cfg (.pop v k) w = sinkHandle cfg { v := v, kind := .pop, typed := false } k (w.upd v { d with len := len' })) ∧
+    (∃ len' idx last, Gen.Kernel.remove_new d.len i = .ok (.made len' [idx, last]) ∧
+      step cfg (.remove v i k) w =
+        sinkHandle cfg { v := v, kind := .remove idx last, typed := false } k (w.upd v { d with len := len' })) ∧
+    (∃ len' slot last, Gen.Kernel.swap_remove_new d.len i = .ok (.made len' [slot, last]) ∧
+      step cfg (.swapRemove v i k) w =
+        sinkHandle cfg { v := v, kind := .swapRemove slot d.gen last, typed := false } k (w.upd v { d with len := len' })) :=
+  ⟨KernelTie.pop_ctor_tie cfg w v k d hv hl (by omega), KernelTie.remove_ctor_tie cfg w v i k d hv hl hi,
+   KernelTie.swap_remove_ctor_tie cfg w v i k d hv hl hi⟩
+
+theorem range_len_is_lowered_first_is_the_source (cfg : Cfg) (w : World) (v : Nat) (lo hi : Bnd) (typed : Bool)
+    (eats : List (End × Sink)) (fin : Fin) (d : VecSt) (s e : Nat) (hv : w.vecs[v]? = some d) (hl : d.live = true)
+    (hr : intoRange d.len lo hi = .ok (s, e)) :
+    (∃ len' fields, Gen.Kernel.drain_new d.len s e = .ok (.made len' fields) ∧
+      step cfg (.drain v lo hi typed eats fin) w =
+        (do let (it', out) ← eatLoop cfg drainDrop (KernelTie.itOf v typed fields) eats [toString (e - s)]
+            match fin with
+            | .drop => do drainDrop it'; pure out
+            | .forget => pure out : WM Out) (w.upd v { d with len := len' })) ∧
+    Gen.Kernel.splice_new d.len s e = Gen.Kernel.drain_new d.len s e :=
+  ⟨KernelTie.drain_ctor_tie cfg w v lo hi typed eats fin d s e hv hl hr, (KernelTie.splice_ctor_tie d s e).2⟩
 
 end C06
 end AnyVec
